@@ -13,6 +13,7 @@ import (
 
 	"github.com/go-logr/logr"
 	"go.opentelemetry.io/otel"
+	"go.opentelemetry.io/otel/attribute"
 	ometric "go.opentelemetry.io/otel/metric"
 	"go.opentelemetry.io/otel/sdk/metric"
 	"go.opentelemetry.io/otel/sdk/metric/metricdata"
@@ -64,13 +65,22 @@ type setup struct {
 	instBound []float64          // WithExplicitBucketBoundaries on the instrument (nil = none)
 	cumul     bool
 	isInt     bool
+	reuse     bool               // ONE ResourceMetrics reused across all collections + a neighbour instrument "a"
+	auxAgg    metric.Aggregation // aggregation of the neighbour instrument (same kind as agg, NoMinMax)
 }
 
 type inst struct {
 	r  *metric.ManualReader
 	hf ometric.Float64Histogram
 	hi ometric.Int64Histogram
+	// reuse mode: "a" is created BEFORE "h", so it owns metric slot 0 whenever it has data and
+	// "h" slides into that slot (and its data-point memory) in a delta cycle where "a" has none.
+	af ometric.Float64Histogram
+	ai ometric.Int64Histogram
+	rm *metricdata.ResourceMetrics
 }
+
+var attrX = ometric.WithAttributes(attribute.String("k", "x"))
 
 func newInst(s setup) inst {
 	temp := metricdata.DeltaTemporality
@@ -92,9 +102,20 @@ func newInst(s setup) inst {
 	if s.agg != nil && !s.viaReader {
 		popts = append(popts, metric.WithView(metric.NewView(metric.Instrument{Name: "h"}, metric.Stream{Aggregation: s.agg})))
 	}
+	if s.reuse && s.auxAgg != nil {
+		popts = append(popts, metric.WithView(metric.NewView(metric.Instrument{Name: "a"}, metric.Stream{Aggregation: s.auxAgg})))
+	}
 	mp := metric.NewMeterProvider(popts...)
 	m := mp.Meter("c07")
 	in := inst{r: r}
+	if s.reuse {
+		in.rm = &metricdata.ResourceMetrics{}
+		if s.isInt {
+			in.ai, _ = m.Int64Histogram("a")
+		} else {
+			in.af, _ = m.Float64Histogram("a")
+		}
+	}
 	if s.isInt {
 		var o []ometric.Int64HistogramOption
 		if s.instBound != nil {
@@ -112,8 +133,11 @@ func newInst(s setup) inst {
 }
 
 func (in inst) collect() any {
-	var rm metricdata.ResourceMetrics // fresh every time: no slot reuse
-	if err := in.r.Collect(ctx, &rm); err != nil {
+	rm := &metricdata.ResourceMetrics{} // fresh unless the scenario reuses one (as PeriodicReader does)
+	if in.rm != nil {
+		rm = in.rm
+	}
+	if err := in.r.Collect(ctx, rm); err != nil {
 		return nil
 	}
 	for _, sm := range rm.ScopeMetrics {
@@ -124,6 +148,20 @@ func (in inst) collect() any {
 		}
 	}
 	return nil
+}
+
+// pickEmpty: index of the single data point whose attribute set is empty (the judged one), else -1.
+func pickEmpty(n int, attrLen func(int) int) int {
+	k := -1
+	for i := 0; i < n; i++ {
+		if attrLen(i) == 0 {
+			if k >= 0 {
+				return -1
+			}
+			k = i
+		}
+	}
+	return k
 }
 
 // explicit observation
@@ -142,18 +180,20 @@ func (o hobs) coq() string {
 func obsExplicit(d any) hobs {
 	switch h := d.(type) {
 	case metricdata.Histogram[float64]:
-		if len(h.DataPoints) != 1 {
+		k := pickEmpty(len(h.DataPoints), func(i int) int { return h.DataPoints[i].Attributes.Len() })
+		if k < 0 {
 			return hobs{}
 		}
-		p := h.DataPoints[0]
+		p := h.DataPoints[k]
 		mi, ok1 := p.Min.Value()
 		ma, ok2 := p.Max.Value()
 		return hobs{bounds: p.Bounds, counts: p.BucketCounts, count: p.Count, min: fnum(mi), max: fnum(ma), sum: fnum(p.Sum), ok: ok1 && ok2}
 	case metricdata.Histogram[int64]:
-		if len(h.DataPoints) != 1 {
+		k := pickEmpty(len(h.DataPoints), func(i int) int { return h.DataPoints[i].Attributes.Len() })
+		if k < 0 {
 			return hobs{}
 		}
-		p := h.DataPoints[0]
+		p := h.DataPoints[k]
 		mi, ok1 := p.Min.Value()
 		ma, ok2 := p.Max.Value()
 		return hobs{bounds: p.Bounds, counts: p.BucketCounts, count: p.Count, min: inum(mi), max: inum(ma), sum: inum(p.Sum), ok: ok1 && ok2}
@@ -179,19 +219,21 @@ func (o eobs) coq() string {
 func obsExpo(d any) eobs {
 	switch h := d.(type) {
 	case metricdata.ExponentialHistogram[float64]:
-		if len(h.DataPoints) != 1 {
+		k := pickEmpty(len(h.DataPoints), func(i int) int { return h.DataPoints[i].Attributes.Len() })
+		if k < 0 {
 			return eobs{}
 		}
-		p := h.DataPoints[0]
+		p := h.DataPoints[k]
 		mi, ok1 := p.Min.Value()
 		ma, ok2 := p.Max.Value()
 		return eobs{scale: p.Scale, posOff: p.PositiveBucket.Offset, pos: p.PositiveBucket.Counts, negOff: p.NegativeBucket.Offset,
 			neg: p.NegativeBucket.Counts, zero: p.ZeroCount, count: p.Count, min: fnum(mi), max: fnum(ma), sum: fnum(p.Sum), ok: ok1 && ok2}
 	case metricdata.ExponentialHistogram[int64]:
-		if len(h.DataPoints) != 1 {
+		k := pickEmpty(len(h.DataPoints), func(i int) int { return h.DataPoints[i].Attributes.Len() })
+		if k < 0 {
 			return eobs{}
 		}
-		p := h.DataPoints[0]
+		p := h.DataPoints[k]
 		mi, ok1 := p.Min.Value()
 		ma, ok2 := p.Max.Value()
 		return eobs{scale: p.Scale, posOff: p.PositiveBucket.Offset, pos: p.PositiveBucket.Counts, negOff: p.NegativeBucket.Offset,
@@ -432,6 +474,7 @@ func main() {
 	w.Rule = "validation probes, explicit histograms (boundary lists incl. empty/single/dense, values at and next to boundaries), " +
 		"exponential histogram sequences over (MaxSize,MaxScale) in {1,2,3,4,20,160}x{-10,-1,0,1,8,20} (subnormals, powers of two and neighbours, " +
 		"huge dynamic range, negatives, zeros, ascending/descending orders, int64 and float64 instruments, delta and cumulative with several collects), " +
+		"two thirds of the multi-collect scenarios reuse ONE ResourceMetrics for all their collections (as PeriodicReader does), with a neighbour instrument and a second attribute set present in even cycles only and rich-then-poor batches, so that a point is written into memory that held negatives / zeros / wider windows / min-max-less points / more points; "+
 		"single-value bucket probes at scales -10..20 on both float neighbours of bucket boundaries; a case is non-trivial when it has a populated " +
 		"bucket window beyond the first bucket / a scale change / a boundary neighbour; float64 sums are compared only when every partial sum is exact " +
 		"(multiples of 2^-10, sum of magnitudes < 2^43), which Coq decides per case; sequences avoid immediate neighbours of non-power-of-two bucket " +
@@ -515,6 +558,33 @@ func main() {
 		addBoundsValid(b, r.Intn(3), "bounds-validate")
 	}
 
+	// Reuse mode (set by the generators below): ONE ResourceMetrics for all collections of the
+	// scenario, a neighbour instrument "a" (same aggregation kind, NoMinMax, other parameters) that
+	// owns metric slot 0 in even cycles only, and a second attribute set on "h" in even cycles only:
+	// in the following cycle "h" is written into memory that held richer data (negatives, zeros,
+	// wide windows, min/max-less points, more data points).
+	reuse := false
+	noise := func(in inst, k int) {
+		if in.rm == nil || k%2 == 1 {
+			return
+		}
+		fs := []float64{-1e-3, -7, -1e9, 0, 0, 0.25, 3, 1e12, -2.5, math.Copysign(0, -1)}
+		is := []int64{-1, -70, -1000000000, 0, 0, 2, 3, 1000000000000, -25, 0}
+		for j := range fs {
+			if in.af != nil {
+				in.af.Record(ctx, fs[j])
+				if j%2 == 0 {
+					in.hf.Record(ctx, fs[j], attrX)
+				}
+			} else {
+				in.ai.Record(ctx, is[j])
+				if j%2 == 0 {
+					in.hi.Record(ctx, is[j], attrX)
+				}
+			}
+		}
+	}
+
 	// ---------- explicit histograms ----------
 	addExplicit := func(bounds []float64, mode int, cumul, isInt bool, fb [][]float64, ib [][]int64, kind string) {
 		desc := map[string]any{"op": "explicit", "bounds": hexes(bounds), "mode": mode, "cumulative": cumul, "int64": isInt}
@@ -529,6 +599,9 @@ func main() {
 				s = setup{agg: metric.AggregationExplicitBucketHistogram{Boundaries: bounds}}
 			}
 			s.cumul, s.isInt = cumul, isInt
+			s.reuse = reuse
+			s.auxAgg = metric.AggregationExplicitBucketHistogram{Boundaries: []float64{-100, -1, 0, 1, 2, 3, 4, 5, 6, 7, 8, 1e6}, NoMinMax: true}
+			desc["reuse_rm"] = reuse
 			in := newInst(s)
 			var allF []float64
 			var allI []int64
@@ -537,6 +610,7 @@ func main() {
 				nb = len(ib)
 			}
 			for k := 0; k < nb; k++ {
+				noise(in, k)
 				if isInt {
 					for _, v := range ib[k] {
 						in.hi.Record(ctx, v)
@@ -590,7 +664,7 @@ func main() {
 		bounds := genBounds(r)
 		isInt := r.Chance(1, 4)
 		cumul := r.Bool()
-		nb := vgen.Pick(r, []int{1, 1, 2, 3})
+		nb := vgen.Pick(r, []int{1, 2, 2, 3, 4})
 		var fb [][]float64
 		var ib [][]int64
 		for k := 0; k < nb; k++ {
@@ -622,14 +696,28 @@ func main() {
 				fb = append(fb, vs)
 			}
 		}
+		reuse = nb >= 2 && r.Chance(2, 3)
+		if reuse {
+			for k := 1; k < nb; k += 2 { // poor cycle after a rich one: few positive values, no zeros, no negatives
+				if isInt {
+					ib[k] = []int64{int64(1 + r.Intn(9))}
+				} else {
+					fb[k] = []float64{genValue(r, 7)}
+				}
+			}
+			w.Tally("explicit:reused-resourcemetrics")
+		}
 		addExplicit(bounds, r.Intn(3), cumul, isInt, fb, ib, "explicit")
+		reuse = false
 	}
 
 	// ---------- exponential histograms ----------
 	addExpo := func(ms, mxs int32, viaReader, cumul, isInt bool, fb [][]float64, ib [][]int64, kind string) {
 		desc := map[string]any{"op": "expo", "maxsize": ms, "maxscale": mxs, "cumulative": cumul, "int64": isInt, "via_reader": viaReader}
 		guard(desc, func() {
-			in := newInst(setup{agg: metric.AggregationBase2ExponentialHistogram{MaxSize: ms, MaxScale: mxs}, viaReader: viaReader, cumul: cumul, isInt: isInt})
+			desc["reuse_rm"] = reuse
+			in := newInst(setup{agg: metric.AggregationBase2ExponentialHistogram{MaxSize: ms, MaxScale: mxs}, viaReader: viaReader, cumul: cumul, isInt: isInt,
+				reuse: reuse, auxAgg: metric.AggregationBase2ExponentialHistogram{MaxSize: 160, MaxScale: 20, NoMinMax: true}})
 			var allF []float64
 			var allI []int64
 			prev := vgen.None
@@ -638,6 +726,7 @@ func main() {
 				nb = len(ib)
 			}
 			for k := 0; k < nb; k++ {
+				noise(in, k)
 				if isInt {
 					for _, v := range ib[k] {
 						in.hi.Record(ctx, v)
@@ -720,6 +809,15 @@ func main() {
 	// subnormals recorded while the scale is already <= 0
 	addExpo(160, -4, false, false, false, [][]float64{{0x1p-1040, 3e-310, 5e-324, -1e-320, 1}}, nil, "corpus-expo")
 
+	// one ResourceMetrics reused: negatives / zeros / wide window in one cycle, none in the next
+	reuse = true
+	addExpo(20, 4, false, false, false, [][]float64{{-1, -2, 0, 5, 1e6}, {3}, {-4, 0}, {2.5}}, nil, "corpus-expo-reuse")
+	addExpo(20, 4, false, true, false, [][]float64{{-1, -2, 0, 5, 1e6}, {3}}, nil, "corpus-expo-reuse")
+	addExpo(4, 0, false, false, true, nil, [][]int64{{-1, -200, 0, 5}, {3}, {0, -9}, {7}}, "corpus-expo-reuse")
+	addExplicit([]float64{0, 5, 10}, 0, false, false, [][]float64{{-1, 0, 7, 100}, {3}, {-2, 20}, {6}}, nil, "corpus-explicit-reuse")
+	addExplicit([]float64{0, 5, 10}, 0, false, true, nil, [][]int64{{-1, 0, 7, 100}, {3}}, "corpus-explicit-reuse")
+	reuse = false
+
 	sizes := []int32{1, 2, 3, 4, 20, 160}
 	scales := []int32{-10, -1, 0, 1, 8, 20}
 	nExpo := o.Count(520, 5000)
@@ -732,7 +830,7 @@ func main() {
 		}
 		isInt := r.Chance(1, 5)
 		cumul := r.Bool()
-		nb := vgen.Pick(r, []int{1, 1, 2, 3})
+		nb := vgen.Pick(r, []int{1, 2, 2, 3, 4})
 		var fb [][]float64
 		var ib [][]int64
 		for k := 0; k < nb; k++ {
@@ -746,7 +844,19 @@ func main() {
 				fb = append(fb, genSeq(r, n))
 			}
 		}
+		reuse = nb >= 2 && r.Chance(2, 3)
+		if reuse {
+			for k := 1; k < nb; k += 2 { // poor cycle after a rich one: one narrow positive value
+				if isInt {
+					ib[k] = []int64{int64(1 + r.Intn(9))}
+				} else {
+					fb[k] = []float64{genValue(r, 7)}
+				}
+			}
+			w.Tally("expo:reused-resourcemetrics")
+		}
 		addExpo(ms, mxs, r.Chance(1, 4), cumul, isInt, fb, ib, "expo")
+		reuse = false
 	}
 
 	// ---------- single-value bucket probes ----------
